@@ -1,6 +1,10 @@
 //! One closed driver per property: alphabet + bound + oracle (DESIGN.md section 3).
 use crate::fw::Tier;
 
+pub mod c01;
+pub mod c02;
+pub mod c03;
+pub mod c04;
 pub mod c09;
 pub mod c10;
 pub mod c11;
@@ -8,6 +12,10 @@ pub mod common;
 
 pub fn run(prop: &str, tier: Tier, seed: u64) -> i32 {
     match prop {
+        "C01" => c01::run(tier, seed),
+        "C02" => c02::run(tier, seed),
+        "C03" => c03::run(tier, seed),
+        "C04" => c04::run(tier, seed),
         "C09" => c09::run(tier, seed),
         "C10" => c10::run(tier, seed),
         "C11" => c11::run(tier, seed),
